@@ -42,6 +42,11 @@ def check_case(ctx: Ctx, c: Dict[str, Any], k: int = 0) -> None:
     from deepali.modules.sample import SampleImage
 
     gs, gt = mk_grid(c["src"]["g"]), mk_grid(c["gt"])
+    if k % 2:  # construct the same grids through the origin= route (as file headers / SimpleITK images do)
+        from deepali.core.grid import Grid
+
+        gs = Grid(size=gs.size(), origin=fl(F(c["src_origin"])), spacing=gs.spacing(), direction=gs.direction(), align_corners=gs.align_corners())
+        gt = Grid(size=gt.size(), origin=fl(F(c["gt_origin"])), spacing=gt.spacing(), direction=gt.direction(), align_corners=gt.align_corners())
     D = gs.ndim
     data = src_tensor(c["src"])
     pad = pad_arg(c["pad"])
@@ -84,9 +89,10 @@ def check_case(ctx: Ctx, c: Dict[str, Any], k: int = 0) -> None:
 
     # (c) independent reference: SimpleITK with the identity transform must agree with the SPEC inside the hull
     simg = sitk.GetImageFromArray(data.numpy())
-    simg.SetOrigin(gs.origin().tolist()); simg.SetSpacing(gs.spacing().tolist()); simg.SetDirection(gs.direction().flatten().tolist())
+    # the reference image headers come from the SPECIFICATION, not from deepali objects
+    simg.SetOrigin(fl(F(c["src_origin"]))); simg.SetSpacing(fl(F(c["src"]["g"]["h"]))); simg.SetDirection([v for r in fl(F(c["src"]["g"]["R"])) for v in r])
     ref = sitk.Image([int(v) for v in c["gt"]["n"]], sitk.sitkFloat32)
-    ref.SetOrigin(gt.origin().tolist()); ref.SetSpacing(gt.spacing().tolist()); ref.SetDirection(gt.direction().flatten().tolist())
+    ref.SetOrigin(fl(F(c["gt_origin"]))); ref.SetSpacing(fl(F(c["gt"]["h"]))); ref.SetDirection([v for r in fl(F(c["gt"]["R"])) for v in r])
     r_lin = torch.from_numpy(sitk.GetArrayFromImage(sitk.Resample(simg, ref, sitk.Transform(), sitk.sitkLinear, 0.0))).to(torch.float64)
     margin = torch.tensor([[min(min(float(i[d][0]) / i[d][1], n - 1 - float(i[d][0]) / i[d][1]) for d, n in enumerate(c["src"]["g"]["n"])) > 1e-3]
                            for i in c["index"]]).reshape(tshape)  # strictly inside (ITK treats the boundary itself differently)
@@ -129,6 +135,16 @@ def check_case(ctx: Ctx, c: Dict[str, Any], k: int = 0) -> None:
                 bad("ImageBatch.sample[per-image grids]", "image sampled on its own grid changed")
             if len(o.grids()) != 2 or o.grids()[0] != gt or o.grids()[1] != gs:
                 bad("ImageBatch.sample[per-image grids]", "result grids are not the per-image target grids", what="grids")
+    # batch whose images have DIFFERENT grids, sampled on one shared grid that equals the first image's grid
+    gs_b = gs.center(gs.center() + 0.5 * gs.spacing())
+    mixed = ImageBatch(torch.stack([data.unsqueeze(0), data.unsqueeze(0)]), [gs, gs_b])
+    o = guarded("ImageBatch.sample[mixed grids]", lambda: mixed.sample(gs, mode="linear", padding=pad))
+    single = guarded("Image.sample", lambda: Image(data.unsqueeze(0), gs_b).sample(gs, mode="linear", padding=pad))
+    if o is not None and single is not None:
+        if max_err(o.tensor()[0], data.unsqueeze(0)) > 1e-5:
+            bad("ImageBatch.sample[mixed grids]", "image already on the target grid changed")
+        if max_err(o.tensor()[1], single.tensor()) > 1e-4:
+            bad("ImageBatch.sample[mixed grids]", "second image (on another grid) was not resampled onto the shared target grid", item=1)
     # explicit normalised coordinates obtained from the target grid agree with the grid route
     ac = gs.align_corners()
     coords = gt.coords(align_corners=gt.align_corners())
